@@ -123,6 +123,36 @@ fn c10_for(lname: &str, comp: Comp, thorough: bool, seed: u64) -> Vec<CaseOut> {
             }
         }
     }
+    // a''. recorded locations that are not plain ASCII file names next to the entry point:
+    // multi-byte file names, and pack files reached through symbolic links
+    for (pname, p) in [("TwoFiles", Packaging::TwoFiles), ("NoConcat", Packaging::NoConcat)] {
+        let d = base.path().join(format!("names-{pname}"));
+        std::fs::create_dir_all(&d).unwrap();
+        let cj = |what: &str| json!({"engine":"packmc","sub":"c10","logical":lname,"comp":comp.name(),"packaging":format!("{what}-{pname}")});
+        match create_logical(&l, comp, p, &d, "donn\u{e9}es-\u{20ac}-\u{65e5}\u{672c}") {
+            Ok(c) => record(format!("multibyte-name:{pname}"), dump_vs_model(&l, &c.path).map(|_| ()), cj("multibyte-name")),
+            Err(e) => record(format!("multibyte-name:{pname}"), Err(("creation failed".into(), e)), cj("multibyte-name")),
+        }
+        let d = base.path().join(format!("links-{pname}"));
+        let store = d.join("store");
+        std::fs::create_dir_all(&store).unwrap();
+        match create_logical(&l, comp, p, &d, "c") {
+            Ok(c) => {
+                // every pack file but the entry point moves to store/ and is replaced by a symlink
+                let mut ok = true;
+                for f in c.files.iter().filter(|f| **f != c.path) {
+                    let to = store.join(f.file_name().unwrap());
+                    ok &= std::fs::rename(f, &to).is_ok() && std::os::unix::fs::symlink(&to, f).is_ok();
+                }
+                if ok {
+                    record(format!("symlinked-packs:{pname}"), dump_vs_model(&l, &c.path).map(|_| ()), cj("symlinked-packs"));
+                } else {
+                    record(format!("symlinked-packs:{pname}"), Err(("MACHINERY cannot create symlinks".into(), String::new())), cj("symlinked-packs"));
+                }
+            }
+            Err(e) => record(format!("symlinked-packs:{pname}"), Err(("creation failed".into(), e)), cj("symlinked-packs")),
+        }
+    }
     // b. concat of the separate files in every order
     if let Some(sep) = created.get("NoConcat") {
         let files = sep.files.clone();
@@ -244,7 +274,7 @@ fn c10(args: &Args) -> ! {
     let mut rep = Report::new(
         "packmc",
         "C10",
-        "each logical container (shapes small / multi / multi2 with two extra content packs) x compression is created as OneFile, TwoFiles, NoConcat; with its extra packs written next to / below / beside / above the entry-point file, read in place and after moving the whole tree; its separate files are concatenated in every order (all permutations), a concat output is concatenated again, manifest+directory only (content through the recorded location), a decoy pack sits at the recorded location while the real one is inside, TwoFiles' files concatenated in both orders, and the one-file container is embedded after prefixes (lengths x 5 kinds); every packaging's full dump must equal the reference model's; non-trivial = every case; distinct by (logical, compression, packaging, order/prefix)",
+        "each logical container (shapes small / multi / multi2 with two extra content packs) x compression is created as OneFile, TwoFiles, NoConcat; with its extra packs written next to / below / beside / above the entry-point file, read in place and after moving the whole tree; with multi-byte file names and with pack files reached through symbolic links; its separate files are concatenated in every order (all permutations), a concat output is concatenated again, manifest+directory only (content through the recorded location), a decoy pack sits at the recorded location while the real one is inside, TwoFiles' files concatenated in both orders, and the one-file container is embedded after prefixes (lengths x 5 kinds); every packaging's full dump must equal the reference model's; non-trivial = every case; distinct by (logical, compression, packaging, order/prefix)",
     );
     let t = args.thorough();
     let mut configs: Vec<(&str, Comp)> = vec![];
